@@ -1,0 +1,71 @@
+//go:build verif
+
+package mainmw
+
+// Contracts for govc (see /verif/DESIGN.md).  Comment-only file.
+
+//@ import agd github.com/AdguardTeam/AdGuardDNS/internal/agd
+//@ import dns github.com/miekg/dns
+//@ import querylog github.com/AdguardTeam/AdGuardDNS/internal/querylog
+//@ import billstat github.com/AdguardTeam/AdGuardDNS/internal/billstat
+//@ import rulestat github.com/AdguardTeam/AdGuardDNS/internal/rulestat
+//@ import filter github.com/AdguardTeam/AdGuardDNS/internal/filter
+//@ import dnsserver github.com/AdguardTeam/AdGuardDNS/internal/dnsserver
+//@ import netip net/netip
+
+//@ immutable Middleware.*
+
+// ---------------------------------------------------------------------------
+// C15: only opted-in profiles are logged and billed, each entry describes its
+// own request.
+
+// The sinks, recorded in ghost state.
+//@ ghost qlWrites int
+//@ ghost qlEntry *querylog.Entry
+//@ interface querylog.Interface method Write
+//@   modifies qlWrites, qlEntry
+//@   ensures qlWrites == old(qlWrites) + 1 && qlEntry == e
+//@ ghost billed int
+//@ ghost billedID agd.DeviceID
+//@ interface billstat.Recorder method Record
+//@   modifies billed, billedID
+//@   ensures billed == old(billed) + 1 && billedID == id
+//@ interface rulestat.Interface method Collect
+//@   modifies nothing
+//@ interface filter.Result method MatchedRule
+//@   modifies nothing
+
+// filteringData / resultData classify the filtering result of this request
+// (they panic on a result type that does not exist; see C02).
+//@ func filteringData
+//@   requires fctx != nil
+//@   modifies nothing
+//@ func (*Middleware).responseCountry
+//@   modifies nothing
+
+//@ func (*Middleware).responseData
+//@   property C15
+//@   requires mw != nil && mw.errColl != nil && mw.logger != nil
+//@   ensures rcode == (resp == nil ? 255 : wrap(resp.Rcode, uint16)) && dnssec == (resp != nil && resp.AuthenticatedData)
+//@ func ipFromAnswer
+//@   modifies nothing
+
+//@ pred profOf(ri *agd.RequestInfo) = asptr(ri.DeviceResult, agd.DeviceResultOK).Profile
+//@ pred devOf(ri *agd.RequestInfo) = asptr(ri.DeviceResult, agd.DeviceResultOK).Device
+//@ pred attributed(ri *agd.RequestInfo) = isptr(ri.DeviceResult, agd.DeviceResultOK) && profOf(ri) != nil
+
+//@ func (*Middleware).recordQueryInfo
+//@   property C15
+//@   requires mw != nil && mw.ruleStat != nil && mw.billStat != nil && mw.queryLog != nil && mw.errColl != nil && mw.logger != nil
+//@   requires fctx != nil && ri != nil && fctx.originalRequest != nil && len(fctx.originalRequest.Question) >= 1
+//@   requires isptr(ri.DeviceResult, agd.DeviceResultOK) ==> asptr(ri.DeviceResult, agd.DeviceResultOK) != nil && (profOf(ri) != nil ==> devOf(ri) != nil)
+//@   modifies qlWrites, qlEntry, billed, billedID
+//@   ensures anonymous-neither-logged-nor-billed: !attributed(ri) ==> qlWrites == old(qlWrites) && billed == old(billed)
+//@   ensures billed-once-for-its-device: attributed(ri) ==> billed == old(billed) + 1 && billedID == devOf(ri).ID
+//@   ensures logged-only-when-opted-in: qlWrites == (attributed(ri) && profOf(ri).QueryLogEnabled ? old(qlWrites) + 1 : old(qlWrites))
+//@   ensures client-address-only-when-opted-in: qlWrites == old(qlWrites) + 1 ==>
+//@             qlEntry.RemoteIP == (profOf(ri).IPLogEnabled ? ri.RemoteIP : zero(netip.Addr))
+//@   ensures entry-describes-its-own-request: qlWrites == old(qlWrites) + 1 ==> qlEntry.ProfileID == profOf(ri).ID && qlEntry.DeviceID == devOf(ri).ID &&
+//@             qlEntry.DomainFQDN == fctx.originalRequest.Question[0].Name && qlEntry.RequestType == ri.QType && qlEntry.Protocol == ri.Proto &&
+//@             qlEntry.RequestID == ri.ID && qlEntry.RequestResult == fctx.requestResult && qlEntry.ResponseResult == fctx.responseResult &&
+//@             qlEntry.ResponseCode == (fctx.filteredResponse == nil ? 255 : wrap(fctx.filteredResponse.Rcode, uint16))
